@@ -459,6 +459,14 @@ func scenING(s *sched.Sim, cfg Config, res *Result) {
 			cr := env.do(r)
 			res.Checks++
 			res.Probe("ing.case:" + c.kind)
+			if c.failAt >= 0 {
+				// the request body stream breaks off (with or without a read error)
+				if c.failErr {
+					res.Fault("request-body-read-error:" + c.kind)
+				} else {
+					res.Fault("request-body-ends-early:" + c.kind)
+				}
+			}
 			fail := func(sig, format string, args ...any) {
 				res.Violate(prop+"/"+sig+":"+c.kind, "request %s (content type %q, body %q, stream cut at %d): %s\nresponse status %d body %s", c.kind, c.contentType, clipStr(string(c.body), 300), c.failAt, fmt.Sprintf(format, args...), cr.Status, clipStr(string(cr.Raw), 300))
 			}
